@@ -404,7 +404,8 @@ def close(x, y, rtol):
     if math.isnan(x) or math.isnan(y):
         return math.isnan(x) and math.isnan(y)
     if math.isinf(x) or math.isinf(y):
-        return x == y
+        # a binary32 overflow where binary64 is merely huge is "within single precision"
+        return x == y or (rtol > 1e-5 and (abs(x) > 3e38 or abs(y) > 3e38))
     return abs(x - y) <= rtol * max(1.0, abs(x), abs(y))
 
 
